@@ -129,6 +129,17 @@ func genCode128Text(t *rapid.T) string {
 		s += string(rune(rapid.SampledFrom([]int{0x80, 0xF0, 0xF5, 0xFF, 0x100, 0x20AC}).Draw(t, "bad")))
 	case 3:
 		s = ""
+	case 4: // a rune whose low byte is an ASCII character (byte-truncation alias), or a digit of another script
+		r := aliasRune(byte(rapid.IntRange(0, 127).Draw(t, "ac")), rapid.IntRange(0, 199).Draw(t, "ak"))
+		if rapid.Bool().Draw(t, "nd") {
+			r = rapid.SampledFrom(nonASCIIDigits).Draw(t, "ndr")
+		}
+		rs := []rune(s)
+		p := 0
+		if len(rs) > 0 {
+			p = rapid.IntRange(0, len(rs)).Draw(t, "ap")
+		}
+		s = string(rs[:p]) + string(r) + string(rs[p:])
 	}
 	return s
 }
